@@ -158,7 +158,7 @@ func vfC18Run(ctx *vfCtx, c *vfCaseC18, alloc bool) *vfC18Out {
 				parked := h.Parked()
 				if len(parked) == 0 {
 					pk, _, _, _ := ps.srv.Replies()
-					ctx.Failf("C18/missing-replies/"+kind, "server idle after %d of %d responses (alloc=%v)\n%s", len(pk), len(ps.reqs), alloc, vfExchangeDump(ps.reqs, pk))
+					ctx.Failf("C18/missing-replies/"+kind, "server idle after %d of %d responses (alloc=%v)\n%s\n%s", len(pk), len(ps.reqs), alloc, vfExchangeDump(ps.reqs, pk), vfDumpRelevant())
 				}
 				// responses completed but held behind a parked earlier one
 				if u, a := used(); alloc {
@@ -179,7 +179,7 @@ func vfC18Run(ctx *vfCtx, c *vfCaseC18, alloc bool) *vfC18Out {
 		}
 		if !ps.srv.AwaitReplies(ctx, len(ps.reqs)) {
 			pk, _, _, _ := ps.srv.Replies()
-			ctx.Failf("C18/missing-replies/"+kind, "server idle after %d of %d responses (alloc=%v)\n%s", len(pk), len(ps.reqs), alloc, vfExchangeDump(ps.reqs, pk))
+			ctx.Failf("C18/missing-replies/"+kind, "server idle after %d of %d responses (alloc=%v)\n%s\n%s", len(pk), len(ps.reqs), alloc, vfExchangeDump(ps.reqs, pk), vfDumpRelevant())
 		}
 		ps.learn(before)
 		// quiescent with all responses delivered: only the receive buffer of the next packet may be in use
